@@ -373,11 +373,24 @@ func (g *Gen) createOp() *Op {
 		}
 	}
 	crowded := false
-	if g.p.MaxCap > 0 && r.Chance(1, 30) {
+	crashCampaign := g.p.TornHeader && g.p.Sign > 0 // (C09's profile)
+	crowdChance := 30
+	if crashCampaign {
+		crowdChance = 10
+	}
+	if g.p.MaxCap > 0 && r.Chance(1, crowdChance) {
 		// a crowded image: a descriptor table larger than the 32 KiB and 64 KiB buffers I/O layers
 		// use (57+ and 113+ slots; 130 and 200 exceed a 128-entry batch), nearly or exactly full
 		cap = pick(r, []int{57, 64, 113, 120, 130, 200})
 		n = cap - pick(r, []int{0, 1, 1, 2, 8})
+		if crashCampaign && r.Chance(2, 3) {
+			// … filled up to a slot in which a 4 KiB, 32 KiB or 64 KiB boundary of the table falls just
+			// behind the in-use flag (slots 35, 42, 56, 112): the next add goes there, and a table
+			// written in pieces of that size tears exactly that descriptor between two calls
+			pr := pick(r, [][2]int{{36, 35}, {43, 42}, {48, 35}, {57, 56}, {64, 56}, {113, 112}, {120, 112}})
+			cap, n = pr[0], pr[1]
+			g.count("create:crowded-up-to-a-buffer-boundary-slot")
+		}
 		for k := range op.COpts {
 			if op.COpts[k].Kind == "cap" {
 				op.COpts[k].I = int64(cap)
